@@ -53,7 +53,7 @@ def run(ctx):
         broken.append("dispatch harness produced no cases")
 
     # ---- the property itself: identical search results under every setting
-    nq = ctx.n(240, 3000)
+    nq = ctx.n(240, 1500)
     per = {}
     corpora = {}
     meta = {}
